@@ -390,14 +390,12 @@ func TestC12(t *testing.T) {
 					case !sl:
 						run.expect("create-snapshot-no-subscription", "CreateSnapshot("+xn+" of dead "+sn+")", err, codes.NotFound)
 					default:
-						if run.expect("create-new-snapshot", "CreateSnapshot("+xn+") [free]", err, codes.OK) {
-							if g, ok := m.topics[ms.topic]; ok && g == ms.tgen {
-								m.snaps[xn] = ms.topic
-							} else {
-								// snapshot of a subscription whose topic was deleted: it hangs off a
-								// deleted topic; whether it is listed is not specified - track it
-								m.snaps[xn] = "(deleted topic)"
-							}
+						if g, ok := m.topics[ms.topic]; !ok || g != ms.tgen {
+							// the subscription outlived its topic: snapshots belong to a
+							// topic and cannot be taken any more
+							run.expect("create-snapshot-deleted-topic", "CreateSnapshot("+xn+" of "+sn+" whose topic is deleted)", err, codes.NotFound)
+						} else if run.expect("create-new-snapshot", "CreateSnapshot("+xn+") [free]", err, codes.OK) {
+							m.snaps[xn] = ms.topic
 						}
 					}
 				case a < 84: // get / delete snapshot
